@@ -255,6 +255,23 @@ ADDENDA4 = {
     'C20': 'Witness cells w38-w40 (further call forms given a temporary range own it).',
 }
 
+ADDENDA5 = {
+    'C02': 'R12.11 (no use after move) re-evaluated.',
+    'C03': 'R02.4 re-evaluated as part of R03.7.',
+    'C04': 'R03.1 / R03.3 (given-ness) re-evaluated as part of R04.6.',
+    'C06': 'R06.10 (= R07.6, R07.9).',
+    'C07': 'R07.6 covers move iterators over a forwarding-reference parameter; R07.9 no narrowing of size_ / capacity_.',
+    'C09': 'R09.6 also decides ticket locks (wait on inequality only).',
+    'C10': 'R05.1 (ownership along the << chain) re-evaluated as part of R10.3.',
+    'C11': 'R03.8 and R13.9 re-evaluated as part of R11.9.',
+    'C12': 'R12.11 nothing on the options path reads a moved-from local.',
+    'C13': 'R13.8 (= R15.2 default group by key); R13.9 the parser keeps no stale copy of the declarations.',
+    'C14': 'R14.4 argv is consumed before the reset pass; writes through reference locals bound to members count as member writes.',
+    'C15': 'R15.3 no custom-ordered associative container on the usage path; R15.10 every std thrower reachable from usage() is discharged.',
+    'C17': 'R17.4 both operands of starts_with carry their length.',
+    'C20': 'R20.1 end() carries no constant index once the iterator can step backwards.',
+}
+
 TECH = {
     "C08": "taint-style subject analysis of searches + regex-literal language equality + must-facts on the arity guards + abstract interpretation of the text-assembling loop over symbolic positions",
     "C09": "lock-scope must-dataflow over the CFG + storage/linkage rules for the mutex + acquire-loop typestate check for hand-written lockables + who-may-touch call-graph rule",
@@ -270,6 +287,8 @@ def main():
     for k, v in ADDENDA3.items():
         CLAIMS[k]["text"] = CLAIMS[k]["text"].rstrip() + " " + v
     for k, v in ADDENDA4.items():
+        CLAIMS[k]["text"] = CLAIMS[k]["text"].rstrip() + " " + v
+    for k, v in ADDENDA5.items():
         CLAIMS[k]["text"] = CLAIMS[k]["text"].rstrip() + " " + v
     for k, v in TECH.items():
         CLAIMS[k]["technique"] = v
